@@ -5,7 +5,9 @@ returned / modified network plus operation specific pre/post invariants; the
 geographical rewirings are driven one iteration at a time and the single swap
 is recovered from the adjacency difference; the Cython kernels are also called
 directly and their edge lists compared with the matrix they maintain."""
+import faulthandler
 import itertools
+import os
 import random as pyrandom
 import warnings
 
@@ -16,8 +18,9 @@ from pvm.mon.invariants import net_invariant
 
 META = dict(
     shards={"quick": 8, "thorough": 16},
-    budget={"quick": 35, "thorough": 420},
+    budget={"quick": 50, "thorough": 420},
     timeout={"quick": 300, "thorough": 3000},
+    resume_on_death=True,
     rule=(
         "cases = (operation, generated input, parameters, library seed); the "
         "library's numpy.random and random are seeded per case and the seed is "
@@ -52,13 +55,13 @@ META = dict(
                   "geo_step_strict_eps": 60, "geo_bulk": 60,
                   "cross_set": 100, "cross_rewire": 50, "dist_links": 20,
                   "kernel_geo_steps": 300, "kernel_cross": 60,
-                  "inet_evals": 800},
+                  "inet_evals": 800, "runs_without_hard_kill": 1},
         "thorough": {"model_cases": 2000, "rewire_cases": 1000,
                      "geo_steps": 6000, "geo_step_strict_eps": 800,
                      "geo_bulk": 800, "cross_set": 1200,
                      "cross_rewire": 600, "dist_links": 250,
                      "kernel_geo_steps": 4000, "kernel_cross": 800,
-                     "inet_evals": 10000}},
+                     "inet_evals": 10000, "runs_without_hard_kill": 1}},
     exhaustive_subspaces={"quick": [], "thorough": []},
     assumptions=[
         "distance matrices are symmetric with zero diagonal; dyadic / integer "
@@ -84,6 +87,7 @@ META = dict(
 )
 
 EPS_FLOAT_SLACK = 1e-5
+HARD_KILL_S = 25
 
 
 # --------------------------------------------------------------------------
@@ -956,8 +960,11 @@ def case_kernel_geo(ctx, k, cid):
         if not np.all((Ac == 0) | (Ac == 1)):
             ctx.violation(f"{name}:entries-not-0/1", det, cid)
             return
-        if not edges_match_matrix(edges, Bn) or \
-                not np.array_equal(Bn, Bn.T):
+        if not np.array_equal(Bn, Bn.T):
+            ctx.violation(f"{name}:A-asymmetric", {**det, "history": hist},
+                          cid)
+            return
+        if not edges_match_matrix(edges, Bn):
             ctx.violation(f"{name}:edge-list-not-in-bijection-with-A",
                           {**det, "history": hist,
                            "edge_list_after": edges.tolist(),
@@ -978,10 +985,15 @@ def case_kernel_geo(ctx, k, cid):
         ctx.nontrivial(("kgeo", cid, step, ctx.seed))
 
 
-def case_kernel_cross(ctx, k, cid):
+def case_kernel_cross1(ctx, k, cid):
+    """kernel calls that perform exactly one accepted draw sequence"""
+    case_kernel_cross(ctx, k, cid, single=True)
+
+
+def case_kernel_cross(ctx, k, cid, single=False):
     from pyunicorn.core._ext import numerics as nx
     from pyunicorn.core._ext.types import ADJ, NODE
-    r = ctx.rng("kx", k)
+    r = ctx.rng("kx1" if single else "kx", k)
     A, nodes1, nodes2, _ = inter_input(r)
     n1, n2 = len(nodes1), len(nodes2)
     B0 = A != 0
@@ -1017,7 +1029,7 @@ def case_kernel_cross(ctx, k, cid):
             ctx.count("kernel_no_admissible_swap")
             return
         links = np.ascontiguousarray(np.argwhere(CA), dtype=NODE)
-        nsw = int(r.choice([1, 2, 5, 30]))
+        nsw = 1 if single else int(r.choice([2, 5, 30]))
         det["number_swaps"] = nsw
         ok, res = ctx.call(nx._randomlyRewireCrossLinks, Ac, CA, links, a1,
                            a2, ncl, nsw)
@@ -1062,20 +1074,49 @@ def case_kernel_cross(ctx, k, cid):
 
 def run(ctx):
     T = ctx.thorough
-    plan = [
-        # (tag, function, number of cases, guard seconds)
-        ("rewire-small", case_rewire_small, len(SMALL), 30),
-        ("xrew-small", case_cross_rewire_small, 512, 30),
-        ("geo-small", case_geo_small, 3 * GRAPHS5, 60),
-        ("model", case_model, 30000 if T else 3000, 30),
-        ("rewire", case_rewire, 20000 if T else 2000, 30),
-        ("geo", case_geo, 20000 if T else 2000, 60),
-        ("kgeo", case_kernel_geo, 10000 if T else 1000, 60),
-        ("xset", case_cross_set, 20000 if T else 2000, 60),
-        ("xrew", case_cross_rewire, 15000 if T else 1500, 60),
-        ("kx", case_kernel_cross, 15000 if T else 1500, 30),
-        ("dist", case_dist, 6000 if T else 600, 30),
-    ]
+    # phase A: single-step kernel calls and loop-free operations first (the
+    # finest monitors, least able to hang); phase B: multi-iteration calls
+    phases = [[
+        # (tag, function, number of cases, soft guard seconds)
+        ("kx1", case_kernel_cross1, 8000 if T else 800, 10),
+        ("kgeo", case_kernel_geo, 10000 if T else 800, 10),
+        ("model", case_model, 30000 if T else 2400, 10),
+        ("xset", case_cross_set, 20000 if T else 1500, 10),
+        ("dist", case_dist, 6000 if T else 480, 10),
+    ], [
+        ("rewire-small", case_rewire_small, len(SMALL), 10),
+        ("xrew-small", case_cross_rewire_small, 512, 10),
+        ("geo-small", case_geo_small, 3 * GRAPHS5, 10),
+        ("rewire", case_rewire, 20000 if T else 1500, 10),
+        ("geo", case_geo, 20000 if T else 1500, 10),
+        ("xrew", case_cross_rewire, 15000 if T else 1200, 10),
+        ("kx", case_kernel_cross, 10000 if T else 800, 10),
+    ]]
+    # A compiled rejection loop that cannot terminate is not interruptible by
+    # the soft watchdog.  Cases are therefore gated by ctx.start (progress
+    # file + checkpoints, META["resume_on_death"]) and run under a hard
+    # watchdog that kills the process; the driver restarts the shard after
+    # the killing case and the rest of that case family is skipped (its floor
+    # is then missed => INCONCLUSIVE, never "held"), while everything the
+    # other monitors saw is kept.
+    mark = "c17_hung_families"
+    poisoned = set()
+    if ctx.resume_after is not None:
+        if os.path.exists(mark):
+            with open(mark) as fh:
+                poisoned = set(fh.read().split())
+        fam = str(ctx.resume_after).split(":")[0]
+        if fam not in poisoned:
+            poisoned.add(fam)
+            with open(mark, "a") as fh:
+                fh.write(fam + "\n")
+    elif os.path.exists(mark):
+        os.remove(mark)
+    for plan in phases:
+        run_plan(ctx, plan, poisoned)
+
+
+def run_plan(ctx, plan, poisoned):
     # interleave the families so that a time budget cuts all of them evenly
     chunk = 64
     pos = {p[0]: 0 for p in plan}
@@ -1096,7 +1137,24 @@ def run(ctx):
                 if not ctx.mine(k):
                     continue
                 cid = f"{tag}:{k}"
-                if not ctx.want(cid):
+                if not ctx.start(cid):
                     continue
-                with ctx.guard(gs):
-                    fn(ctx, k, cid)
+                if tag in poisoned:
+                    ctx.count("skipped_after_hard_kill:" + tag)
+                    continue
+                faulthandler.dump_traceback_later(HARD_KILL_S, exit=True)
+                try:
+                    with ctx.guard(gs):
+                        fn(ctx, k, cid)
+                finally:
+                    faulthandler.cancel_dump_traceback_later()
+
+
+def post(m, results, san_logs):
+    """Driver side: cases killed by the hard watchdog make the run
+    inconclusive (floor `runs_without_hard_kill`)."""
+    deaths = [d for R in results for d in R.get("deaths", [])]
+    m["counters"]["cases_killed_by_hard_watchdog"] = len(deaths)
+    m["counters"]["runs_without_hard_kill"] = 0 if deaths else 1
+    if deaths:
+        m["notes"]["killed_cases"] = [d["case_id"] for d in deaths][:20]
